@@ -129,4 +129,5 @@ c13_free_fault!(c13_free_fault_at0, 0);
 c13_free_fault!(c13_free_fault_at1, 1);
 c13_free_fault!(c13_free_fault_at2, 2);
 c13_free_fault!(c13_free_fault_at3, 3);
+c13_free_fault!(c13_free_fault_at4, 4);
 c13_free_fault!(c13_free_fault_at5, 5);
